@@ -30,10 +30,24 @@ HELPERS = ['Adjoint', 'TransInv', 'TransToRp', 'MatrixExp6', 'MatrixExp3', 'VecT
 KERNEL_1D_PARAMS = {'InverseDynamics': {'Ftip'}, 'ForwardDynamics': {'Ftip'}, 'EndEffectorForces': {'Ftip'}}
 
 
+LEN0 = ('call', 'len', (('p', 0),), ())
+
+
 def zeros_n(t):
-    """[0] * len(arg0)"""
-    return isinstance(t, tuple) and t[0] == 'bin' and t[1] == '*' and isinstance(t[2], tuple) and t[2][0] == 'block' \
-        and all(is_num(c[4], 0) for c in t[2][2]) and t[3] == ('call', 'len', (('p', 0),), ())
+    """the array  j -> 0  of length len(arg0)  ([0] * n, or a comprehension)"""
+    return isinstance(t, tuple) and t[0] == 'lam' and t[2] == LEN0 and is_num(t[3], 0)
+
+
+def unit_n(t, iv):
+    """the array  j -> (1 if j == i else 0)  of length len(arg0)"""
+    if not (isinstance(t, tuple) and t[0] == 'lam' and t[2] == LEN0):
+        return False
+    b = t[3]
+    if not (b[0] == 'ite' and b[1][0] == 'cmp' and {b[1][2], b[1][3]} == {('bv', t[1]), iv}):
+        return False
+    if b[1][1] == '==':
+        return is_num(b[2], 1) and is_num(b[3], 0)
+    return b[1][1] == '!=' and is_num(b[2], 0) and is_num(b[3], 1)
 
 
 def zeros_k(t, k):
@@ -67,7 +81,7 @@ def check(model, rep):
         if body[0] == 'store' and body[2] == (('sl', None, None, None), ('iv', loop[1])) and body[3][:2] == ('call', 'InverseDynamics'):
             a = body[3][2]
             unit = a[2]
-            ok_unit = unit[0] == 'store' and zeros_n(unit[1]) and unit[2] == (('iv', loop[1]),) and is_num(unit[3], 1)
+            ok_unit = unit_n(unit, ('iv', loop[1]))
             ok = a[0] == ('p', 0) and zeros_n(a[1]) and ok_unit and zeros_k(a[3], 3) and zeros_k(a[4], 6) and a[5:] == (('p', 1), ('p', 2), ('p', 3))
             ok = ok and loop[2] == ('for', ('call', 'range', (('call', 'len', (('p', 0),), ()),), ()))
     rep.ob('R08.1', F('MassMatrix'), 'column i = ID(q, 0, e_i, g=0, F=0)', ok, msg)
@@ -95,37 +109,20 @@ def check(model, rep):
     mmf = arm.methods.get('massMatrix')
     if mmf is None:
         raise AnalysisError('anchor vanished: Arm.massMatrix')
-    loops = [n for n in mmf.body() if isinstance(n, ast.For)]
-    ok, msg = False, 'accumulation loop not recognised'
-    if len(loops) == 1 and isinstance(loops[0].target, ast.Name):
-        lp = loops[0]
-        iv = lp.target.id
-        th = mmf.params[1]
-        asg = {}
-        for n in ast.walk(lp):
-            if isinstance(n, ast.Assign) and len(n.targets) == 1 and isinstance(n.targets[0], ast.Name):
-                asg.setdefault(n.targets[0].id, []).append(n.value)
-        accs = [n for n in lp.body if isinstance(n, ast.Assign) and isinstance(n.value, ast.BinOp) and isinstance(n.value.op, ast.Add)
-                and src(n.targets[0]) == src(n.value.left)]
-        if len(accs) == 1:
-            term = resolve(accs[0].value.right, asg)
-            # (J.T @ G) @ J
-            if isinstance(term, ast.BinOp) and isinstance(term.op, ast.MatMult) and isinstance(term.left, ast.BinOp) and isinstance(term.left.op, ast.MatMult):
-                Jt, G, J = term.left.left, term.left.right, term.right
-                Jr = resolve(J, asg)
-                ok_J = src(Jr) == 'self.jacobianLink(%s, %s)' % (iv, th)
-                ok_Jt = isinstance(Jt, ast.Attribute) and Jt.attr == 'T' and src(resolve(Jt.value, asg)) == src(Jr)
-                ok_G = src(G).replace(' ', '') in ('self._box_spatial_links[%s,:,:]' % iv, 'self._box_spatial_links[%s]' % iv)
-                ok_rng = src(lp.iter).replace(' ', '') == 'range(len(%s))' % th
-                zero_init = any(isinstance(n, ast.Assign) and src(n.targets[0]) == src(accs[0].targets[0]) and 'np.zeros((len(%s), len(%s)))' % (th, th) in src(n.value)
-                                for n in mmf.body() if n.lineno < lp.lineno)
-                ok = ok_J and ok_Jt and ok_G and ok_rng and zero_init
-                msg = 'J: %s (same index, same theta: %s), J^T of the same J: %s, G_i: %s, range(len(theta)): %s, zero start: %s' % (
-                    src(Jr), ok_J, ok_Jt, ok_G, ok_rng, zero_init)
-            else:
-                msg = 'summand is not J^T @ G @ J: ' + src(term)[:80]
-        ret = returns_of(mmf)
-        ok = ok and len(ret) == 1 and accs and src(ret[0].value) == src(accs[0].targets[0])
+    th = mmf.params[1]
+    ok, msg = False, ''
+    for g_txt in ('self._box_spatial_links[i, :, :]', 'self._box_spatial_links[i]'):
+        ok, why = tv.fi_matches_spec(model, mmf, """
+            def massMatrix(self, %s = None):
+                %s = self._helper_ensure_theta_not_none(%s)
+                acc = np.zeros((len(%s), len(%s)))
+                for i in range(len(%s)):
+                    acc = acc + self.jacobianLink(i, %s).T @ %s @ self.jacobianLink(i, %s)
+                return acc
+            """ % (th, th, th, th, th, th, th, g_txt, th))
+        if ok:
+            break
+        msg = msg or ('not the congruence sum over every link with one index, from a zero matrix: ' + why)
     rep.ob('R08.2', mmf, 'M = sum_i J_i^T G_i J_i', ok, msg)
 
     # ---------------------------------------------------------------- R08.3
